@@ -16,6 +16,24 @@ Open Scope nat_scope.
 
 Notation reads := (expr_reads string).
 
+(* folding integer-literal subtrees changes no read *)
+Lemma fold2_reads f a b d : expr_reads string d = [] -> expr_reads string (fold2 f a b d) = [].
+Proof. intros H. unfold fold2. destruct (int_lit a && int_lit b && small_int (f (int_val a) (int_val b))); [reflexivity|exact H]. Qed.
+Lemma fold_ints_reads (e : sexpr) : expr_reads string (fold_ints e) = expr_reads string e.
+Proof.
+  induction e as [x|x k|a IHa|a IHa|o a IHa b IHb|a IHa b IHb|a IHa b IHb|o l IHl r IHr a IHa b IHb|g a IHa|g a IHa b IHb];
+    cbn [fold_ints expr_reads]; try reflexivity.
+  - rewrite <- IHa. destruct (fold_ints a); try reflexivity. destruct (int_lit x); reflexivity.
+  - rewrite <- IHa. destruct (fold_ints a); try reflexivity. destruct (int_lit x); reflexivity.
+  - rewrite <- IHa, <- IHb.
+    destruct o, (fold_ints a), (fold_ints b); try reflexivity; cbn [expr_reads app]; apply fold2_reads; reflexivity.
+  - rewrite <- IHa, <- IHb. destruct (fold_ints a), (fold_ints b); try reflexivity; cbn [expr_reads app]; apply fold2_reads; reflexivity.
+  - rewrite <- IHa, <- IHb. destruct (fold_ints a), (fold_ints b); try reflexivity; cbn [expr_reads app]; apply fold2_reads; reflexivity.
+  - rewrite IHl, IHr, IHa, IHb. reflexivity.
+  - rewrite IHa. reflexivity.
+  - rewrite IHa, IHb. reflexivity.
+Qed.
+
 Section TreeFacts.
   Variable row : string -> option nat.
   Notation toks_reads := (tok_reads row).
@@ -187,7 +205,7 @@ Section TreeFacts.
     destruct r as [|[x' k'|g|s| | | | | | | | | | ] r]; try discriminate.
     destruct (row x) as [j|] eqn:Er; [|discriminate].
     destruct (p_expr row (tree_fuel r) r) as [[e' [|? ?]]|] eqn:E; try discriminate.
-    intros H; inversion H; subst. split; [exact Er|].
+    intros H; inversion H; subst. split; [exact Er|]. rewrite fold_ints_reads.
     apply tree_reads in E. cbn [tok_reads]. rewrite Er, E. cbn [tok_reads somes map]. rewrite app_nil_r. reflexivity.
   Qed.
 End TreeFacts.
